@@ -29,6 +29,10 @@ CHECKS = {
    technique="TLA+ model of the session's lock protocol (FidConc.tla) checked by TLC for mutual exclusion, deadlock freedom, no-lock-left and linearizability; concurrent histories recorded from the real session validated by TLC (FidLin.tla: linearization-point search against the sequential fid table)",
    text="TLC explores every interleaving of 2-3 concurrent session operations at the granularity of table lookup / Lock / FileSys enter / exit / bind / rollback and checks per-entry mutual exclusion, that some process can always move, that no returned process holds a lock and that the results are linearizable. On the real code seeded concurrent workloads (2-4 goroutines, yields inside FileSys calls) record invoke/return and FileSys enter/exit events; TLC validates each history (mutual exclusion invariant, linearizability by searching linearization points). Calls that never return / fids left locked are detected by watchdog + goroutine dump and by probing every fid at quiescence; the sequential LTS replay of the fid engine contributes its hang class; race detector in the thorough tier.",
    note="Trusted: FidLin.tla's sequential semantics, event stamping under one mutex, Go race detector. Interleavings on the real code are sampled, not enumerated (no lock-level hooks); the lock-level enumeration is on the model only."),
+ "C20": dict(engine="cfs", cat="model_checking", ref="5 C20",
+   technique="TLA+ model of the client file-system layer over an abstract 9P session (CFileSys.tla) checked by TLC; its complete LTS replayed on the real CFileSys over a spying session and the real server, with the issued session call and the server's bound-fid set compared after every step",
+   text="TLC enumerates all reachable states of the entry/fid bookkeeping (fresh fids, live entries, server-bound set) for all name lists over the special forms and all server outcomes (complete / partial k / error) and checks: distinct fids per live entry, exactly the live entries' fids bound, steps sent are valid walk elements, normalisation idempotent. Every transition is executed on p9p.CFileSys(spy(p9p.SFileSys(scriptedFS))): the session call (method, fid, newfid, names) must be the model's, success is reported iff the server completed, the returned entry carries the walked-to qid, the real server's fid table equals the model's after each step and is empty after all entries are clunked.",
+   note="Trusted: the normalisation transcribed into CFileSys.tla from the property text; the spy; direct Stat probes on the server session. Bounds: <=5 fid allocations, <=3 live entries per history."),
 }
 
 NA_REASON = "check not built yet in this round; planned per DESIGN.md section 5 (specification exists or is planned, no verdict is claimed)"
